@@ -87,6 +87,7 @@ func runRace(t *testing.T, rc *core.RunCtx) {
 	}
 	cs := w.cs
 	w.freeRun = true
+	neutrino.VerifYield = nil // no yield hook (and no lock of ours) inside the client in race-detector runs
 
 	// Node pumps: one goroutine per node, answering immediately. They use
 	// only per-node state and the read-only model.
